@@ -772,7 +772,10 @@ class PackageSet:
         axisSpecifier = axisName + '@'
         abbreviatedStep = pyparsing.Keyword('.')
 
-        sQStringLiteral = pyparsing.QuotedString("'")
+        # Single quoted strings are taken verbatim. Do not let pyparsing
+        # convert backslash sequences (\t, \x41, ...) in them.
+        sQStringLiteral = pyparsing.QuotedString("'",
+            convert_whitespace_escapes=False)
         sQStringLiteral.set_parse_action(
             lambda s, loc, toks: StringLiteral(s, loc, toks, False,
                                                self.__stringFunctions,
